@@ -255,7 +255,7 @@ package fp
 //@ }
 //@ func iterFilterStep[T any](r Iterator[T], p func(T) bool, mode int, k int) bool {
 //@ 	it := r.Filter(p)
-//@ 	c0 := verifspec.IterPos(r) == 0 && !verifspec.Cell[Option[T]](it, "fv").IsDefined()
+//@ 	c0 := verifspec.IterPos(r) == 0 && verifspec.IterProbes(r) == 0 && !verifspec.Cell[Option[T]](it, "fv").IsDefined()
 //@ 	verifspec.Havoc(it)
 //@ 	verifspec.Assume(iterFilterInv(r, it, p))
 //@ 	p0 := verifspec.IterPos(r)
@@ -382,7 +382,7 @@ package fp
 //@ ghost
 //@ func iterDropStep[T any](r Iterator[T], n int, direct bool, next bool) bool {
 //@ 	it := r.Drop(n)
-//@ 	c0 := verifspec.IterPos(r) == 0 && !verifspec.Cell[bool](it, "dropped")
+//@ 	c0 := verifspec.IterPos(r) == 0 && verifspec.IterProbes(r) == 0 && !verifspec.Cell[bool](it, "dropped")
 //@ 	verifspec.Havoc(it)
 //@ 	p0 := verifspec.IterPos(r)
 //@ 	len := verifspec.IterLen(r)
@@ -562,7 +562,7 @@ package fp
 //@ }
 //@ func iterConcatStep[T any](r Iterator[T], tail Iterator[T], mode int, next bool) bool {
 //@ 	it := iterWrap(r).Concat(iterWrap(tail))
-//@ 	c0 := verifspec.IterPos(r) == 0 && verifspec.IterPos(tail) == 0
+//@ 	c0 := verifspec.IterPos(r) == 0 && verifspec.IterPos(tail) == 0 && verifspec.IterProbes(r) == 0 && verifspec.IterProbes(tail) == 0 // construction neither pulls nor asks
 //@ 	verifspec.Havoc(r, tail)
 //@ 	lr := verifspec.IterLen(r)
 //@ 	lt := verifspec.IterLen(tail)
@@ -605,7 +605,7 @@ package fp
 //@ }
 //@ func iterAppendedStep[T any](r Iterator[T], e T, mode int) bool {
 //@ 	it := iterWrap(r).Appended(e)
-//@ 	c0 := verifspec.IterPos(r) == 0
+//@ 	c0 := verifspec.IterPos(r) == 0 && verifspec.IterProbes(r) == 0
 //@ 	verifspec.Havoc(r)
 //@ 	lr := verifspec.IterLen(r)
 //@ 	pr := verifspec.IterPos(r)
@@ -657,7 +657,7 @@ package fp
 //@ 		return Iterator[T]{}
 //@ 	}
 //@ 	it := r.FlatMap(mf)
-//@ 	c0 := verifspec.IterPos(r) == 0 && verifspec.IterPos(inner) == 0
+//@ 	c0 := verifspec.IterPos(r) == 0 && verifspec.IterProbes(r) == 0 && verifspec.IterPos(inner) == 0 && verifspec.IterProbes(inner) == 0
 //@ 	verifspec.Havoc(r, inner)
 //@ 	lr := verifspec.IterLen(r)
 //@ 	li := verifspec.IterLen(inner)
@@ -860,7 +860,7 @@ package fp
 //@ 	if leftAssoc {
 //@ 		it = iterWrap(a).Concat(iterWrap(b)).Concat(iterWrap(c))
 //@ 	}
-//@ 	c0 := verifspec.IterPos(a) == 0 && verifspec.IterPos(b) == 0 && verifspec.IterPos(c) == 0
+//@ 	c0 := verifspec.IterPos(a) == 0 && verifspec.IterProbes(a) == 0 && verifspec.IterPos(b) == 0 && verifspec.IterProbes(b) == 0 && verifspec.IterPos(c) == 0 && verifspec.IterProbes(c) == 0
 //@ 	verifspec.Havoc(a, b, c)
 //@ 	pa := verifspec.IterPos(a)
 //@ 	pb := verifspec.IterPos(b)
